@@ -97,7 +97,7 @@ var scFonts = []string{
 	"ot:common/NotoSansArabic.ttf", "ot:toys/Sbix1.ttf", "ot:toys/CBLC1.ttf", "ot:morx/One.ttf", "ot:morx/Thirtytwo.ttf", "ot:toys/Kern2.ttf",
 	"ot:common/Lmmono-italic.otf", "ot:common/Mada-VF.ttf", "ot:toys/Var1.ttf", "ot:toys/KacstQurn.ttf", "ot:common/Selawik-VF.ttf",
 	"ot:toys/chromacheck-svg.ttf", "ot:bitmap/IBM3161-bitmap.otb", "ot:common/SourceSans-VF.ttf", "ot:toys/Trak.ttf", "ot:toys/Feat.ttf",
-	"ot:common/DejaVuSans.ttf", "ot:common/NotoSansMongolian-Regular.ttf", "synth:svg-gzip.ttf", "synth:gsub-long-context.ttf", "synth:dangling-refs.ttf",
+	"ot:common/DejaVuSans.ttf", "ot:common/NotoSansMongolian-Regular.ttf", "synth:svg-gzip.ttf", "synth:gsub-long-context.ttf",
 	"hb:harfbuzz_reference/text-rendering-tests/fonts/TestCMAPMacTurkish.ttf", // cmap format 0 (a Go map behind Cmap.Iter)
 }
 
@@ -242,7 +242,6 @@ type cop struct {
 	lang   language.Language
 	script language.Script
 	fam    string
-	fam2   string
 }
 
 const (
@@ -262,9 +261,6 @@ const (
 var kindIDs = map[string]int{"face": kFace, "vars": kVars, "glyphs": kGlyphs, "fontq": kFontq, "hbshape": kHbshape, "shape": kShape,
 	"split": kSplit, "wrap": kWrap, "fmadd": kFmadd, "fmresolve": kFmresolve, "fmsys": kFmsys}
 
-var scQueryFamilies = []string{"serif", "sans-serif", "monospace", "helvetica", "calibri", "arial", "times new roman", "courier new", "cursive", "fantasy",
-	"verdana", "georgia", "dejavu sans", "liberation sans", "ms gothic", "system-ui", "cambria", "nimbus sans", "serif"}
-
 func compile(prog []SOp, nFonts int) []cop {
 	out := make([]cop, len(prog))
 	for i, op := range prog {
@@ -279,9 +275,6 @@ func compile(prog []SOp, nFonts int) []cop {
 			c.hfeats = append(c.hfeats, harfbuzz.Feature{Tag: ot.MustNewTag(pad4(f.Tag)), Value: f.Val, Start: harfbuzz.FeatureGlobalStart, End: harfbuzz.FeatureGlobalEnd})
 		}
 		c.script = scriptNoLib(c.text)
-		// the second family of a font-map query: a name the substitution table knows (generic
-		// keywords, metric-compatible aliases, weak fall-backs), chosen by the operation's text
-		c.fam2 = scQueryFamilies[(len(c.text)*7+op.F+op.N)%len(scQueryFamilies)]
 		if c.k == kFmsys {
 			c.fam, c.lang = op.Lang, ""
 		}
@@ -531,7 +524,7 @@ func (t *taskState) exec(c *cop) (h uint64) {
 			t.fm.AddFace(t.face(c.f), fontscan.Location{File: c.fam, Index: uint16(t.fmSeq)}, font.Description{Family: c.fam, Aspect: font.Aspect{Style: font.StyleNormal, Weight: 400, Stretch: 1}})
 		}
 		if c.k == kFmresolve {
-			t.fm.SetQuery(fontscan.Query{Families: []string{c.fam, c.fam2}})
+			t.fm.SetQuery(fontscan.Query{Families: []string{c.fam, "serif"}})
 			t.fm.SetScript(c.script)
 			for _, r := range c.text {
 				h = mix(h, t.faceIndex(t.fm.ResolveFace(r)))
